@@ -162,3 +162,98 @@ Proof.
   { destruct ns; [cbn in H0; lia|]. cbn [length]. lia. }
   remember (N.of_nat (length ns)) as tn. remember (sumN ts) as st. lia.
 Qed.
+
+(* ---- the same allowance with the window field's width kept: 6 + ceil((wbits + 20) / 8) ---- *)
+Definition part_allowance_w (wb n : N) : N := n + 4 * (n / 2 ^ 14) + 6 + (wb + 27) / 8.
+
+Ltac Zify.zify_post_hook ::= Z.to_euclidean_division_equations.
+Lemma header_end_nomagic_w c n : scfg_ok c = true -> s_magic c = false ->
+  header_end c n / 8 <= (s_wbits c + 27) / 8 + catable_bytes c n.
+Proof.
+  unfold scfg_ok. intros H Hm. apply andb_true_iff in H. destruct H as [H _].
+  apply andb_true_iff in H. destruct H as [H _]. apply andb_true_iff in H. destruct H as [H _].
+  unfold header_end, catable_bytes. rewrite Hm.
+  assert (Hw : s_wbits c = 1 \/ s_wbits c = 4 \/ s_wbits c = 7 \/ s_wbits c = 14).
+  { repeat (apply orb_true_iff in H; destruct H as [H|H]); apply N.eqb_eq in H; lia. }
+  destruct (s_catable c); cbn [andb].
+  - destruct (N.ltb_spec 0 n) as [Hn|Hn].
+    + unfold after_stored.
+      assert (Hcb : N.min 2 n = 1 \/ N.min 2 n = 2) by lia.
+      assert (Hh : stored_header_bits (N.min 2 n) = 20) by (destruct Hcb as [-> | ->]; reflexivity).
+      rewrite Hh. unfold round8. remember (N.min 2 n) as cb.
+      destruct Hw as [-> | [-> | [-> | ->]]]; lia.
+    + destruct Hw as [-> | [-> | [-> | ->]]]; lia.
+  - destruct Hw as [-> | [-> | [-> | ->]]]; lia.
+Qed.
+Ltac Zify.zify_post_hook ::= idtac.
+
+Lemma part_within_allowance_w c n bs fe t :
+  scfg_ok c = true -> s_magic c = false -> n < 2 ^ 62 -> schedule_ok c n bs fe = true ->
+  stream_bytes c n bs fe = Some t -> t <= part_allowance_w (s_wbits c) n.
+Proof.
+  intros Hc Hm Hn Hs Ht. unfold part_allowance_w.
+  pose proof Hs as Hs'.
+  unfold schedule_ok in Hs. apply andb_true_iff in Hs. destruct Hs as [Hs Hnf].
+  apply andb_true_iff in Hs. destruct Hs as [Hsum Hall]. apply N.eqb_eq in Hsum. fold (sum_len bs) in Hsum.
+  assert (Hok : blocks_ok bs).
+  { unfold blocks_ok. apply Forall_forall. intros b Hb. rewrite forallb_forall in Hall. specialize (Hall b Hb).
+    apply andb_true_iff in Hall. destruct Hall as [A B]. apply N.ltb_lt in A. apply N.leb_le in B. lia. }
+  pose proof (header_end_nomagic_w c n Hc Hm) as Hh.
+  destruct (header_end_nomagic c n Hc Hm) as [_ Hh0].
+  destruct (N.eq_dec n 0) as [->|Hnz].
+  - assert (bs = []).
+    { destruct bs as [|b t']; [reflexivity|]. cbn [sum_len fold_right] in Hsum.
+      inversion Hok as [|b' t'' [Hb1 Hb2] Hok' E1]; subst. lia. }
+    subst bs. unfold stream_bytes in Ht. destruct fe; [|discriminate]. cbn [after_blocks] in Ht. injection Ht as <-.
+    specialize (Hh0 eq_refl). change (0 / 2 ^ 14) with 0. remember ((s_wbits c + 27) / 8) as sb. lia.
+  - assert (Hne : bs <> [] \/ fe = true).
+    { unfold stream_bytes in Ht. destruct bs; [destruct fe; [right; reflexivity|discriminate]|left; discriminate]. }
+    assert (Hab : exists p', after_blocks c (header_end c n) bs fe = Some p' /\ t = (p' + 7) / 8).
+    { unfold stream_bytes in Ht. destruct bs as [|b t'].
+      - destruct fe; [|discriminate]. destruct (after_blocks c (header_end c n) [] true) as [p'|]; [|discriminate].
+        injection Ht as <-. eexists; split; reflexivity.
+      - destruct (after_blocks c (header_end c n) (b :: t') fe) as [p'|]; [|discriminate].
+        injection Ht as <-. eexists; split; reflexivity. }
+    destruct Hab as (p' & Hab & ->).
+    pose proof (after_blocks_bound c fe bs _ _ Hok Hne Hab) as Hb.
+    pose proof (overhead_count fe bs (catable_bytes c n) Hok Hnf) as Hcnt.
+    rewrite Hsum in Hcnt.
+    remember (n / 2 ^ 14) as k. remember (sum_overhead bs) as so. remember (sum_len bs) as sl.
+    remember (catable_bytes c n) as cb. remember (header_end c n / 8) as he. remember ((p' + 7) / 8) as tot.
+    remember ((s_wbits c + 27) / 8) as sb. lia.
+Qed.
+
+(* the later parts of a CompressMulti call: all with the same window-field width wl *)
+Lemma rest_parts_sum wl : forall (ns : list N) (cs : list scfg) (scheds : list (list mblock * bool)) (ts : list N),
+  length cs = length ns -> length scheds = length ns -> length ts = length ns ->
+  (forall i c n bs fe t, nth_error cs i = Some c -> nth_error ns i = Some n ->
+     nth_error scheds i = Some (bs, fe) -> nth_error ts i = Some t ->
+     scfg_ok c = true /\ s_magic c = false /\ s_wbits c = wl /\ schedule_ok c n bs fe = true
+     /\ stream_bytes c n bs fe = Some t) ->
+  sumN ns < 2 ^ 62 ->
+  sumN ts <= sumN ns + 4 * (sumN ns / 2 ^ 14) + (6 + (wl + 27) / 8) * N.of_nat (length ns).
+Proof.
+  intros ns cs scheds ts Lc Ls Lt Hall Hn.
+  assert (Hts : sumN ts <= sumN ns + 4 * sumN (map (fun p => p / 2 ^ 14) ns) + (6 + (wl + 27) / 8) * N.of_nat (length ns)).
+  { revert cs scheds ts Lc Ls Lt Hall Hn.
+    induction ns as [|n ns' IH]; intros cs scheds ts Lc Ls Lt Hall Hn.
+    - destruct ts; [cbn; lia|discriminate].
+    - destruct cs as [|c cs']; [discriminate|]. destruct scheds as [|[bs fe] scheds']; [discriminate|].
+      destruct ts as [|t ts']; [discriminate|].
+      cbn [map sumN fold_right length] in *. fold (sumN ts'). fold (sumN ns') in *.
+      fold (sumN (map (fun p => p / 2 ^ 14) ns')).
+      destruct (Hall 0%nat c n bs fe t eq_refl eq_refl eq_refl eq_refl) as (A1 & A2 & A3 & A4 & A5).
+      assert (Hn1 : n < 2 ^ 62) by lia.
+      pose proof (part_within_allowance_w c n bs fe t A1 A2 Hn1 A4 A5) as Hp. rewrite A3 in Hp.
+      unfold part_allowance_w in Hp.
+      assert (IH' : sumN ts' <= sumN ns' + 4 * sumN (map (fun p => p / 2 ^ 14) ns') + (6 + (wl + 27) / 8) * N.of_nat (length ns')).
+      { apply (IH cs' scheds'); try (cbn [length] in *; lia).
+        intros i c0 n0 bs0 fe0 t0 E1 E2 E3 E4. apply (Hall (S i) c0 n0 bs0 fe0 t0); assumption. }
+      rewrite Nat2N.inj_succ.
+      remember ((wl + 27) / 8) as sb. remember (n / 2 ^ 14) as q. remember (sumN (map (fun p => p / 2 ^ 14) ns')) as sq.
+      remember (N.of_nat (length ns')) as L. nia. }
+  pose proof (sum_div_le (2 ^ 14) ns) as Hd.
+  assert (Hc : 2 ^ 14 <> 0) by (vm_compute; discriminate). specialize (Hd Hc).
+  remember (sumN (map (fun p => p / 2 ^ 14) ns)) as s. remember (sumN ns / 2 ^ 14) as k.
+  remember ((6 + (wl + 27) / 8) * N.of_nat (length ns)) as X. lia.
+Qed.
